@@ -111,12 +111,21 @@ impl World {
             }
             cur.push('/');
             cur.push_str(c);
-            self.nodes.entry(cur.clone()).or_insert(Node::Dir);
+            // a world is always a consistent tree: an ancestor that was a file becomes a directory
+            match self.nodes.get(&cur) {
+                Some(Node::Dir) => {}
+                _ => {
+                    self.nodes.insert(cur.clone(), Node::Dir);
+                }
+            }
         }
     }
 
     pub fn put_file(&mut self, path: &str, bytes: Vec<u8>, fault: Fault) {
         self.mkdir_p(&parent_of(path));
+        if self.is_dir(path) {
+            self.remove_tree(path);
+        }
         self.nodes
             .insert(path.to_string(), Node::File { bytes, fault });
     }
